@@ -493,15 +493,95 @@ func c35Scenarios(thorough bool) []*explore.Scenario {
 	if thorough {
 		d = 5
 	}
-	return []*explore.Scenario{c35RoundTrip(thorough), c35Rotation(d), c35KeyDerivation(), c35Forged(), c35Clones()}
+	return []*explore.Scenario{c35RoundTrip(thorough), c35Rotation(d), c35KeyDerivation(), c35Forged(), c35Clones(), c35IssuedByHandshakes()}
 }
 
 func init() {
 	register(&Prop{ID: "C35", Level: "exploration", Variant: "A", Scenarios: c35Scenarios,
 		Run: func(c *explore.Check, thorough bool) {
-			c.Rule = "SessionStates captured from real TLS 1.2 (EMS / no EMS) and 1.3 handshakes with and without a client certificate x Extra of 0/1/3 entries x key sets of 1-3 keys: decrypt(encrypt(s)) serialises identically; every single-bit flip (every 3rd byte for tickets > 400 B in quick), every truncation and 1-4 appended bytes yield (nil,nil); oldest configured key accepted, unconfigured key refused; every history of <=3 (5) explicit rotations (on a Config whose first key was installed by SetSessionTicketKeys, and on one where it came from the deprecated SessionTicketKey field) and of <=5 (7) clock advances from {0,23h,25h,3d,8d} under auto-managed keys against a reference model; TicketKeyFromBytes on all single-byte-set inputs vs installed keys and SHA-512 slices; Config.Clone followed by SetSessionTicketKeys on the clone or the origin ({1,2,3} initial x {1,2,3} new keys): the other Config keeps exactly its keys; forged ClientSessionStates (constructor and setters) x secret lengths {0,1,16,31,32,33,47,48,49,64,255} x 4 versions x 5 suites x 3 ticket lengths return exactly the supplied version, suite, ticket and master secret. distinct = (state, keys) / history"
+			c.Rule = "SessionStates captured from real TLS 1.2 (EMS / no EMS) and 1.3 handshakes with and without a client certificate x Extra of 0/1/3 entries x key sets of 1-3 keys: decrypt(encrypt(s)) serialises identically; every single-bit flip (every 3rd byte for tickets > 400 B in quick), every truncation and 1-4 appended bytes yield (nil,nil); oldest configured key accepted, unconfigured key refused; every history of <=3 (5) explicit rotations (on a Config whose first key was installed by SetSessionTicketKeys, and on one where it came from the deprecated SessionTicketKey field) and of <=5 (7) clock advances from {0,23h,25h,3d,8d} under auto-managed keys against a reference model; TicketKeyFromBytes on all single-byte-set inputs vs installed keys and SHA-512 slices; Config.Clone followed by SetSessionTicketKeys on the clone or the origin ({1,2,3} initial x {1,2,3} new keys): the other Config keeps exactly its keys; forged ClientSessionStates (constructor and setters) x secret lengths {0,1,16,31,32,33,47,48,49,64,255} x 4 versions x 5 suites x 3 ticket lengths return exactly the supplied version, suite, ticket and master secret; tickets issued by real TLS 1.2/1.3 handshakes x listener keys {explicit, automatic} x GetConfigForClient {none, a per-connection Config without keys, one with its own keys} x 2 clients: the ticket in the client's cache opens with the keys of the Config documented to seal it (and only those) and a second connection resumes. distinct = (state, keys) / history"
 			c.Assumptions = []string{"reference model of auto rotation: a new key every 24h on access, keys older than 7 days dropped at rotation time", "end-to-end resumption through a forged ClientSessionState (48-byte TLS 1.2 master secret) is exercised by C20; here the state itself is checked for every secret length"}
 			runAll(c, c35Scenarios(thorough), 0)
 			c.Gate(c.Total.Counters["mutated_tickets"] > 10000, "non-vacuity: %d mutated tickets", c.Total.Counters["mutated_tickets"])
 		}})
+}
+
+// c35IssuedByHandshakes — the tickets a real server hands out are sealed with the keys of the
+// Config the listener was given, also when GetConfigForClient swaps in a per-connection Config that
+// has no ticket keys of its own (documented: "the keys on the original Config are used"): the
+// ticket in the client's cache opens with listener.DecryptTicket, and a second connection resumes.
+func c35IssuedByHandshakes() *explore.Scenario {
+	return &explore.Scenario{
+		Name: "tickets-issued-by-real-handshakes",
+		Run: func(x *explore.X) (r explore.Result) {
+			vers := []uint16{tls.VersionTLS12, tls.VersionTLS13}[x.Choose("version", 2)]
+			keys := x.Choose("listener-keys", 2)   // 0 explicit (SetSessionTicketKeys), 1 automatic
+			perConn := x.Choose("per-connection-config", 3) // 0 none, 1 GetConfigForClient returns a fresh Config without keys, 2 returns a Config with its own explicit keys
+			id := []tls.ClientHelloID{tls.HelloGolang, tls.HelloChrome_100_PSK}[x.Choose("client", 2)]
+			what := fmt.Sprintf("vers=%04x listener-keys=%d per-connection-config=%d client=%s", vers, keys, perConn, id.Client)
+			base := peer.ServerConfig()
+			base.MaxVersion = vers
+			listener := &tls.Config{Certificates: base.Certificates, MinVersion: base.MinVersion, MaxVersion: vers, Time: base.Time}
+			if keys == 0 {
+				listener.SetSessionTicketKeys([][32]byte{keyN(41)})
+			} else {
+				// (the harness clones the server Config per connection: have the automatic keys exist
+				// before the first clone is taken, as they would in one long-lived listener Config)
+				listener.DecryptTicket(make([]byte, 64), tls.ConnectionState{})
+			}
+			own := &tls.Config{Certificates: base.Certificates, MinVersion: base.MinVersion, MaxVersion: vers, Time: base.Time}
+			own.SetSessionTicketKeys([][32]byte{keyN(42)})
+			switch perConn {
+			case 1:
+				listener.GetConfigForClient = func(*tls.ClientHelloInfo) (*tls.Config, error) {
+					return &tls.Config{Certificates: base.Certificates, MinVersion: base.MinVersion, MaxVersion: vers, Time: base.Time}, nil
+				}
+			case 2:
+				listener.GetConfigForClient = func(*tls.ClientHelloInfo) (*tls.Config, error) { return own, nil }
+			}
+			cache := newRecCache()
+			ccfg := peer.ClientConfig("a.example")
+			ccfg.ClientSessionCache = cache
+			ccfg.OmitEmptyPsk = true
+			hs1 := peer.Run(ccfg, id, listener, peer.Opts{Echo: true})
+			if !(hs1.OK() && hs1.EchoOK) {
+				r.Violate("INFRA|c35-handshake", "%s: first connection: %v / %v", what, hs1.CErr, hs1.SErr)
+				return
+			}
+			r.Nontrivial = true
+			r.Class = what
+			cache.mu.Lock()
+			var tickets [][]byte
+			for _, t := range cache.tickets["a.example"] {
+				tickets = append(tickets, t)
+			}
+			cache.mu.Unlock()
+			if len(tickets) == 0 {
+				r.Obs = "no-ticket-issued"
+				return
+			}
+			opener := listener
+			if perConn == 2 {
+				opener = own
+			}
+			for i, t := range tickets {
+				st, err := opener.DecryptTicket(t, tls.ConnectionState{})
+				if st == nil || err != nil {
+					r.Violate(fmt.Sprintf("C35|issued-ticket-does-not-open|per-connection-config=%d", perConn), "%s: ticket #%d issued by the handshake does not open with the keys of the Config that is documented to seal it (state=%v err=%v)", what, i, st != nil, err)
+				}
+				if perConn == 2 {
+					if st2, _ := listener.DecryptTicket(t, tls.ConnectionState{}); st2 != nil {
+						r.Violate("C35|issued-ticket-opens-with-foreign-keys", "%s: the per-connection Config has its own keys, yet the listener's keys open the ticket", what)
+					}
+				}
+			}
+			hs2 := peer.Run(ccfg, id, listener, peer.Opts{Echo: true})
+			if !(hs2.OK() && hs2.EchoOK) || !hs2.U.ConnectionState().DidResume {
+				r.Violate(fmt.Sprintf("C35|issued-ticket-not-resumable|per-connection-config=%d", perConn), "%s: the second connection does not resume (client %v, server %v, DidResume=%v)", what, hs2.CErr, hs2.SErr, hs2.CErr == nil && hs2.U.ConnectionState().DidResume)
+			}
+			r.Count("issued_tickets_opened", len(tickets))
+			r.Obs = fmt.Sprintf("tickets=%d|viol=%d", len(tickets), len(r.Viol))
+			return
+		},
+	}
 }
